@@ -38,19 +38,20 @@ func theRaceLog() *kernel.RaceLog {
 
 // tOp kinds
 const (
-	tPrepare      = iota // Credential.NonrevPrepareCache
-	tProveNonrev         // CreateDisclosureProof with non-revocation part
-	tProvePlain          // CreateDisclosureProof without
-	tProveRange          // with a range statement
-	tVerify              // verify an own copy of a pre-made proof under the shared public key
-	tRandRead            // read n bytes from the process-wide generator
-	tRandomQR            // common.RandomQR on the shared modulus
-	tProveList           // BuildProofList over two credentials (linked proofs)
-	tIssueCommit         // issuance commitment (ProofU) with the shared secret
-	tRandStress          // tight loop of 2000 one-block reads from the process-wide generator (free-running class)
-	tGenKey              // gabikeys.GenerateKeyPair at a toy length (free-running class: parallel key generation under the race detector)
-	tVerifyUpdate        // Update.Verify on one update object made by the issuer itself (in-process authority) and shared by all tasks
-	tIssueRetry          // one CredentialBuilder answering twice (issuer nonce changed after a dropped session; or a proof list first): same U, fresh randomness
+	tPrepare                = iota // Credential.NonrevPrepareCache
+	tProveNonrev                   // CreateDisclosureProof with non-revocation part
+	tProvePlain                    // CreateDisclosureProof without
+	tProveRange                    // with a range statement
+	tVerify                        // verify an own copy of a pre-made proof under the shared public key
+	tRandRead                      // read n bytes from the process-wide generator
+	tRandomQR                      // common.RandomQR on the shared modulus
+	tProveList                     // BuildProofList over two credentials (linked proofs)
+	tIssueCommit                   // issuance commitment (ProofU) with the shared secret
+	tRandStress                    // tight loop of 2000 one-block reads from the process-wide generator (free-running class)
+	tGenKey                        // gabikeys.GenerateKeyPair at a toy length (free-running class: parallel key generation under the race detector)
+	tVerifyUpdate                  // Update.Verify on one update object made by the issuer itself (in-process authority) and shared by all tasks
+	tProveAfterFailedCommit        // disclosure builder (with non-revocation part) whose first Commit fails recoverably (incomplete keyshare commitment), then succeeds on the same builder
+	tIssueRetry                    // one CredentialBuilder answering twice (issuer nonce changed after a dropped session; or a proof list first): same U, fresh randomness
 	tOpKinds
 )
 
@@ -211,6 +212,8 @@ func runT(r *kernel.Run, s TSpec) *tResult {
 	}
 	theRaceLog().New() // discard anything reported during set-up
 
+	var genMu sync.Mutex
+	var genModuli []*big.Int // moduli of the keys generated by the tasks of this run
 	sched0 := s.Schedule
 	for p, tasks := range s.Phases {
 		buggify := map[string]bool{}
@@ -297,6 +300,20 @@ func runT(r *kernel.Run, s TSpec) *tResult {
 						}
 						pl, err := gabi.ProofBuilderList{cb}.BuildProofList(ctx, nonce, false)
 						rec(pl, err, op.Kind, -1, false, true)
+					case tProveAfterFailedCommit:
+						b, err := hc.Cred.CreateDisclosureProofBuilder([]int{1}, nil, true)
+						if err != nil {
+							sl.errs = append(sl.errs, fmt.Sprintf("p%d t%d o%d builder: %v", p, ti, oi, err))
+							continue
+						}
+						b.SetProofPCommitment(&gabi.ProofPCommitment{}) // a keyshare server's commitment that lacks Pcommit
+						if _, err := (gabi.ProofBuilderList{b}).BuildProofList(ctx, nonce, false); err == nil {
+							sl.errs = append(sl.errs, "Commit succeeded on an incomplete keyshare commitment")
+							continue
+						}
+						b.SetProofPCommitment(nil) // the holder goes on without the keyshare server
+						pl, err := gabi.ProofBuilderList{b}.BuildProofList(ctx, nonce, false)
+						rec(pl, err, tProveNonrev, -1, false, false)
 					case tVerifyUpdate:
 						if _, err := sharedUpd.Verify(pk); err != nil {
 							sl.errs = append(sl.errs, "verify shared update: "+err.Error())
@@ -367,6 +384,15 @@ func runT(r *kernel.Run, s TSpec) *tResult {
 							sl.errs = append(sl.errs, "GenerateKeyPair: "+err.Error())
 						} else if why := wellFormed(gsk, gpk, 128, 2); why != "" {
 							sl.errs = append(sl.errs, "concurrently generated key malformed: "+why)
+						} else {
+							genMu.Lock()
+							for _, other := range genModuli {
+								if g := new(big.Int).GCD(nil, nil, other, gpk.N); g.Cmp(big.NewInt(1)) != 0 {
+									sl.errs = append(sl.errs, fmt.Sprintf("two keys generated in parallel share the prime factor %v", g))
+								}
+							}
+							genModuli = append(genModuli, gpk.N)
+							genMu.Unlock()
 						}
 					case tRandomQR:
 						q := gabi.VerifRandomQR(pk.N)
